@@ -23,8 +23,15 @@ from sklearn.exceptions import NotFittedError
 
 from ..core import Check, Problem, register
 
-ATOL = 1e-9
-ATOL_TORCH = 1e-6
+# Tolerances (review R2): every comparison is between two runs of the SAME deterministic computation in the same process
+# (refit vs fresh twin, before vs after predict / pickle, repeated predict).  Measured on the clean tree (/repo 897f58c+,
+# seed 0: all layout + set_params cases and 290 random/exhaustive sequences, 3997 "same" and 1495 "different" comparisons):
+# max |a-b| over comparisons judged "same" = 0.0 exactly for every class (CR, TO, GS, EG, torch adversarial); min |a-b|
+# over comparisons judged "different" = 8.0e-3 (adversarial), 7.1e-2 .. 2.1e-1 (others).  100 x the measured maximum is
+# 0, so equality is exact (np.allclose with rtol = atol = 0, NaN = NaN).  The former 1e-9 / 1e-6 were 9 / 6 orders of
+# magnitude wider than anything observed.
+ATOL = 0.0
+ATOL_TORCH = 0.0
 ALPHABET = ["f1", "f2", "p5", "k", "c"]
 
 
@@ -769,6 +776,14 @@ def run_sequence(ad, cfg, pair, ops, tw=None):
             rec["new_attrs"] = sorted(set(rec.get("new_attrs", [])) | set(snap_attrs))
         rec["same"] = same_snapshot(prev, cur, ad.atol)
         rec["cls"] = classify(ad, cur, tw)
+        if op[0] != "p":
+            # review R2: the snapshot itself consists of prediction calls, and the twins are observed through the same
+            # calls — a prediction that alters the fitted state ONCE (idempotently: a cache, an in-place normalisation)
+            # would change subject and twin alike and stay invisible.  So after every state-changing operation the
+            # snapshot is taken a second time: the first answers after fit / pickle / clone must be repeated.
+            again = snapshot(ad, est, cfg, pair)
+            if not same_snapshot(cur, again, ad.atol):
+                rec["first_vs_second"] = sorted(k for k in cur if k not in again or not same_value(cur[k], again[k], ad.atol))
         prev = cur
         trace.append(rec)
     return trace
@@ -865,10 +880,18 @@ class CHECK(Check):
             "and random length-4 sequences containing s, one configuration per class, s = set_params(<tracked parameter>=<second "
             "value>) (TO grid_size, CR alpha, GS constraint_weight, EG max_iter, adversarial learning_rate), judged against "
             "fresh estimators CONSTRUCTED with the second value. After every prediction snapshot the attribute set of the "
-            "estimator must be unchanged.")
+            "estimator must be unchanged, and after every fit / pickle / clone / set_params the snapshot is taken twice and must "
+            "repeat itself (a prediction that alters the state once, idempotently, is invisible otherwise because the twins are "
+            "observed through the same calls). Not varied (fixed per configuration): the small iteration counts of the learners "
+            "(EG max_iter 2-3, GridSearch grid_size 3-4, ThresholdOptimizer grid_size 10-20, adversarial nets of 2-3 hidden "
+            "units, 1-2 epochs, torch backend on one thread), integer features in 0..5, no sample weights passed by the "
+            "caller, predict seeds 0..9; after a fit that RAISED, the results of predict are not judged until the next "
+            "fit / clone (the property says nothing about that state), the state comparisons still are.")
     explanation = ("state-machine theorems (all histories) + operation-by-operation correspondence with the real "
                    "estimators; oracle = specification automaton + freshly fitted twins compared by predictions / "
-                   "_pmf_predict / weights / transform within 1e-9 (torch 1e-6). The model covers latches and flags "
+                   "_pmf_predict / weights / transform EXACTLY (atol = rtol = 0; measured max deviation between a refitted "
+                   "estimator and its fresh twin, and across predict / pickle, on the clean tree: 0.0 in 3997 comparisons, "
+                   "smallest deviation between different twins 8e-3). The model covers latches and flags "
                    "only: object identity, pickle and clone are trusted (pickle = identity of the modelled state, "
                    "clone = parameters kept incl. deep-copied latches, fitted attributes dropped).")
     trusted = ("pickle, sklearn.base.clone, copy.deepcopy are not modelled (see explanation)",
@@ -1002,6 +1025,9 @@ class CHECK(Check):
             return [Problem("harness", f"twins of {name}/{cfg} pair {case['pair']} are not distinguishable")]
         prefit = cfg == "prefit"
         spec = spec_trace(ops, prefit)
+        if not (len(o["trace"]) == len(ops) == len(spec)):      # zip below must not truncate silently
+            return [Problem("harness", f"trace / specification do not cover every operation of {ops}: "
+                                       f"{len(o['trace'])} records, {len(spec)} expected")]
         base_unfitted = False    # prefit: the nested estimator was cloned (= unfitted) since construction
         widths = ad.widths(cfg, case["pair"])
         tainted = False          # a fit raised: the state the property speaks about is undefined until fit/clone
@@ -1018,6 +1044,10 @@ class CHECK(Check):
                 probs.append(mk("property", f"{where}: a prediction call (predict / _pmf_predict / transform on fixed test "
                                 f"inputs) added / removed attributes of the estimator: {rec['new_attrs']}",
                                 "C19.predict_pure", what="attrs", **base))
+            if rec.get("first_vs_second"):
+                probs.append(mk("property", f"{where}: the first prediction snapshot after the operation is not repeated by the "
+                                f"second one (a prediction call altered the fitted state): {rec['first_vs_second']}",
+                                "C19.predict_pure", what="first-vs-second", **base))
             if op[0] == "f":
                 d = int(op[1:])
                 refit = bool(fitted_since_clone)
@@ -1082,6 +1112,9 @@ class CHECK(Check):
             if len(mo) != 4 or "bad-op" in mo:
                 return probs + [Problem("harness", f"driver rejected the case: {mo}")]
             cur, rep, src = [[t.split(":") for t in line.split(";")] if line != "-" else [] for line in mo[:3]]
+            if not (len(cur) == len(rep) == len(src) == len(ops)) or any(len(t) != 3 for t in cur + rep + src):
+                # theorem C19.driver_output_covers_every_op: one record per operation; anything else is our machinery
+                return probs + [Problem("harness", f"driver output does not have one (res, cls, param) record per operation of {ops}: {mo[:3]}")]
             flags = dict(kv.split("=", 1) for kv in mo[3].split(" "))
             # (c) the rule vector the lifter derived from the source text == the rule vector probed at run time
             for key in ("F5a", "F5b.GS", "F5b.EG", "F5c", "F5d", "F5e"):
@@ -1135,6 +1168,10 @@ class CHECK(Check):
             where = f"op {i} ({op}) of {ops} on {name}/{cfg} [{ad.alt[0]}: constructor value -> {ad.alt[1]}]"
             base = dict(cls=name, cfg=cfg, op=op, index=i, family="params")
             exp = None
+            if rec.get("first_vs_second"):
+                probs.append(mk("property", f"{where}: the first prediction snapshot after the operation is not repeated by the "
+                                f"second one (a prediction call altered the fitted state): {rec['first_vs_second']}",
+                                "C19.predict_pure", what="first-vs-second", **base))
             if op[0] == "f":
                 d = int(op[1:])
                 fitted = (d, p)
@@ -1170,6 +1207,8 @@ class CHECK(Check):
             if len(mo) != 2 or "bad-op" in mo:
                 return probs + [Problem("harness", f"driver rejected the case: {mo}")]
             mach, spec = [[t.split(":") for t in line.split(";")] for line in mo]
+            if not (len(mach) == len(spec) == len(ops) == len(o["trace"])) or any(len(t) != 2 for t in mach + spec):
+                return probs + [Problem("harness", f"driver output does not have one (res, cls) record per operation of {ops}: {mo}")]
             for i, (op, m, sp, exp, rec) in enumerate(zip(ops, mach, spec, want, o["trace"])):
                 if exp is not None and sp[1] != exp:
                     probs.append(Problem("harness", f"Lean specification {sp} != Python specification {exp} at op {i} of {ops}"))
